@@ -82,6 +82,18 @@ def check_smooth(case):
     return fails, (entry, len(x), str(s), tuple(np.round(gy, 6)), bool(np.any(np.abs(gy - fy) > 1e-9)))
 
 
+@kind("smooth-long")
+def check_smooth_long(case):
+    from mc.harness import shrink
+    m = case["len"]
+    x = A.long_grid(m, case["grid"])
+    y = [0.05 * i + 0.3 * ((i * 7) % 3 - 1) + (1.5 if (i // 9) % 2 else 0.0) for i in range(m)]
+    fails, sig = check_smooth({"x": x, "y": y, "s": case["s"], "entry": case["entry"], "affine": False, "default": True, "y_dtype": "float64"})
+    if sig is not None and sig[0] != "discarded":
+        sig = (sig[0], m, sig[2], hash(sig[3]) & 0xffffff, sig[4])
+    return shrink(fails, long=True), sig
+
+
 @kind("to_function-history")
 def check_tofunction_history(case):
     """to_function() (default zero smoothing) passes through every sample get() returns - in every
@@ -173,4 +185,26 @@ def harnesses(tier, seed):
             ops.append(op)
         judge(ctx, check_tofunction_history, {"init": ii, "ops": [list(o) for o in ops]}, calls=2 * len(ops) + 2)
 
-    return [{"name": "smoothing", "body": body}, {"name": "to_function-in-every-state", "body": hist_body}]
+    lsizes = A.sizes(40 if quick else 72, 1100 if quick else 3300, minimum=5)
+
+    def long_body(ctx):
+        m = ctx.choose(lsizes, "len")
+        gk = ctx.choose(["uniform", "gaps"], "grid")
+        entry = ctx.choose(["smooth", "to_function", "function"], "entry")
+        for s_ in (0, 1.0, 0.05 * m, None):
+            if s_ == 0 and m > 600:
+                continue
+            c = {"kind": "smooth-long", "len": m, "grid": gk, "s": s_, "entry": entry}
+            fails, sig = check_smooth_long(c)
+            ctx.call(1)
+            ctx.bulk(1)
+            for f in fails:
+                ctx.fail(f["clause"], c, f.get("detail"), f.get("key"))
+            if sig is not None and sig[0] == "discarded":
+                ctx.note("discarded_fitpack_warning")
+            elif sig is not None:
+                ctx.outcome(sig, nontrivial=sig[-1])
+
+    return [{"name": "smoothing", "body": body}, {"name": "to_function-in-every-state", "body": hist_body},
+            {"name": "long-series", "body": long_body,
+             "bound_text": "every length 5..%d, 2^k+1 and around every integer constant of the code up to %d" % (40 if quick else 72, lsizes[-1])}]
